@@ -147,7 +147,7 @@ func TestC01(t *testing.T) {
 			c01Part.EvalCase(s, d)
 		}
 	}
-	c01Part.Run(s, hx.PerShard(hx.Pick(1600, 64000)))
+	c01Part.Run(s, hx.PerShard(hx.Pick(1600, 16000)))
 }
 
 // ------------------------------------------------------------------ C03 determinism / spec conformance
@@ -446,6 +446,6 @@ func TestC03(t *testing.T) {
 			c03Multi.EvalCase(s, c03Case{Set: d, Rep2: i % 4})
 		}
 	}
-	c03Multi.Run(s, hx.PerShard(hx.Pick(480, 12800)))
-	c03IPA.Run(s, hx.PerShard(hx.Pick(160, 4800)))
+	c03Multi.Run(s, hx.PerShard(hx.Pick(480, 6400)))
+	c03IPA.Run(s, hx.PerShard(hx.Pick(160, 2400)))
 }
